@@ -76,6 +76,23 @@ def trace_oracle(term, out):
     if e1._canon_ast(tree, {}) != e1._canon_ast(ref, {}):
         out.violate(PROP, "C09|trace|ast-differs", "Trace.run returned a different program than untraced decompilation",
                     term.replay(), len(term.seq))
+    # tracing an interpreter that has already run to completion, and tracing the same one twice, return the same program
+    try:
+        i2 = fk.Interpreter(fk.Pickled.load(term.data))
+        first = i2.to_ast()
+        again, _printed = e1.capture_stdout(lambda: Trace(i2).run())
+        i3 = fk.Interpreter(fk.Pickled.load(term.data))
+        t1, _p1 = e1.capture_stdout(lambda: Trace(i3).run())
+        t2, _p2 = e1.capture_stdout(lambda: Trace(i3).run())
+        want = e1._canon_ast(ref, {})
+        if e1._canon_ast(again, {}) != want or e1._canon_ast(first, {}) != want:
+            out.violate(PROP, "C09|trace|after-run-differs", "Trace.run on an interpreter that already ran returns a different program",
+                        term.replay(), len(term.seq))
+        elif e1._canon_ast(t2, {}) != want or e1._canon_ast(t1, {}) != want:
+            out.violate(PROP, "C09|trace|second-trace-differs", "tracing the same interpreter twice returns a different program",
+                        term.replay(), len(term.seq))
+    except RecursionError:
+        pass
     if p.dumps() != before or before != term.data:
         out.violate(PROP, "C09|trace|bytes-changed", "tracing changed dumps()", term.replay(), len(term.seq))
 
